@@ -4,3 +4,61 @@ From Zvt Require Import Base.
 From Zvt.spec Require Import Spec.
 Open Scope N_scope.
 Eval vm_compute in (map (fun x => (x_name x, x_command x, x_replies x)) (exchanges ++ [upload_exchange])).
+
+(* ---- the specification layouts as JSON (same schema as .cache/gen/layouts.json) ---- *)
+From Zvt Require Import Length Cp437 Encoding Codec.
+From Zvt.spec Require Import SpecLayouts.
+From Coq Require Import Ascii.
+Open Scope string_scope.
+
+Fixpoint n2s_fuel (fuel : nat) (n : N) (acc : string) : string :=
+  match fuel with
+  | O => acc
+  | S f => let acc' := String (ascii_of_N (48 + n mod 10)) acc in
+           if (n / 10 =? 0)%N then acc' else n2s_fuel f (n / 10)%N acc'
+  end.
+Definition n2s (n : N) : string := n2s_fuel 25 n "".
+
+Definition q (s : string) : string := """" ++ s ++ """".
+Definition ls_json (ls : lenstyle) : string :=
+  match ls with
+  | LEmpty => "LEmpty" | LTlv => "LTlv" | LAdpu => "LAdpu" | LTemperature => "LTemperature"
+  | LFixed n => "LFixed " ++ n2s n | LLlv d => "LLlv " ++ n2s d
+  end.
+Definition enc_json (e : Encoding.enc) : string :=
+  match e with
+  | EDefault => "Default" | EBigEndian => "BigEndian" | EBcd => "Bcd" | EHex => "Hex" | EUtf8 => "Utf8"
+  | ECustom => "Custom" | EReceiptNo => "PartialReversalReceiptNo"
+  end.
+Definition prim_json (p : prim) : string :=
+  match p with
+  | PInt 1 => "u8" | PInt 2 => "u16" | PInt 4 => "u32" | PInt _ => "usize"
+  | PString => "String" | PDateTime => "NaiveDateTime" | PBytes => "Bytes"
+  end.
+Fixpoint join (sep : string) (l : list string) : string :=
+  match l with [] => "" | [x] => x | x :: r => x ++ sep ++ join sep r end.
+
+Fixpoint ty_json (y : ty) {struct y} : string :=
+  match y with
+  | TPrim p => "{""k"":""prim"",""p"":" ++ q (prim_json p) ++ "}"
+  | TOpt u => "{""k"":""opt"",""t"":" ++ ty_json u ++ "}"
+  | TVec u => "{""k"":""vec"",""t"":" ++ ty_json u ++ "}"
+  | TStruct fs =>
+      "{""k"":""struct"",""name"":""spec"",""fields"":[" ++
+      join "," ((fix go (fs : list field) : list string :=
+                   match fs with
+                   | [] => []
+                   | Fld n tg ls e t' :: r =>
+                       ("{""name"":" ++ q n ++ ",""tag"":" ++ (match tg with Some t0 => n2s t0 | None => "null" end) ++
+                        ",""length"":" ++ q (ls_json ls) ++ ",""encoding"":" ++ q (enc_json e) ++
+                        ",""ty"":" ++ ty_json t' ++ "}") :: go r
+                   end) fs) ++ "]}"
+  end.
+
+Definition packet_json (p : packet) : string :=
+  "{""name"":" ++ q (k_rust p) ++ ",""control"":" ++
+  (match k_cf p with Some (c, i) => "[" ++ n2s c ++ "," ++ n2s i ++ "]" | None => "null" end) ++
+  ",""layout"":" ++ ty_json (TStruct (k_fields p)) ++ "}".
+
+Definition spec_json : list string := map (fun p => "SPECJSON" ++ packet_json p) packets.
+Eval vm_compute in spec_json.
